@@ -579,6 +579,9 @@ class ExprMixin:
             ln = If(b > a, b - a, 0)
             src = c.z
             res = self.new_list_fn(q, ln, lambda i: h.litem(src, a + i))
+            if lo.tag == "none" and isinstance(c.extra, dict) and "emb" in c.extra:
+                # lst[:k] of a filter result: the same embedding witnesses, restricted to the prefix
+                res.extra = dict(res.extra or {}, emb=c.extra["emb"], inv=c.extra["inv"], filter_of=c.extra.get("filter_of"), prefix_of=c.z)
             out.append((q, res))
         return out
 
